@@ -45,7 +45,15 @@ public:
   }
   [[nodiscard]] TokenID LastID() const noexcept { return lastRead; }
   [[nodiscard]] Token MakeToken() const {
-    return Token{ lastRead, this->BaseT().Range(), this->BaseT().ParseData() };
+    auto data = this->BaseT().ParseData();
+    if (HasIndices(lastRead) && std::empty(data.ToTuple())) {
+      // projection / filter without a single valid (non-zero) index, e.g. pr0
+      return Token{ TokenID::INTERRUPT, this->BaseT().Range(), TokenData{} };
+    }
+    return Token{ lastRead, this->BaseT().Range(), std::move(data) };
+  }
+  [[nodiscard]] static constexpr bool HasIndices(const TokenID id) noexcept {
+    return id == TokenID::SMALLPR || id == TokenID::BIGPR || id == TokenID::FILTER;
   }
   [[nodiscard]] TokenData ParseData() const {
     switch (lastRead) {
